@@ -319,6 +319,20 @@ def subscriptions(chk: Check) -> None:
                                    and [norm(a) for a in c.args[0].args] == [f'self._communicator.{rem}', idvar] for c in _calls(nxt[0]))
         chk.ob('PAIR-subscription', init, ok, f'{add}: the matching {rem}(identifier) is registered as cleanup immediately after a successful subscribe (a terminated process no '
                'longer receives messages)', kind=f'{add}:cleanup')
+    # "a terminated process no longer receives messages" -- also one that is LOADED in a terminal state: init() runs after the load and subscribes; the
+    # un-subscription is a cleanup, and cleanups run on the transition INTO a terminal state, which a process loaded terminated never makes
+    from ..facts import not_terminated
+    rf = prog.func('processes.Process.recreate_from')
+    rcalls = [c for c in calls_in_func(rf, 'call_with_super_check') if c.args and last_name(ast.Call(func=c.args[0], args=[], keywords=[])) == 'init']
+    ff_init = chk.ctx.facts.analyse(init)
+    subs_sites = [c for c in calls_in_func(init) if last_name(c) in ('add_rpc_subscriber', 'add_broadcast_subscriber')]
+    guarded_in_init = bool(subs_sites) and all(all(not_terminated(fs) or any(a_[0] == 'F' and 'done()' in a_[1] for a_ in fs) for _, fs in ff_init.site_facts(c)) for c in subs_sites)
+    ffr = chk.ctx.facts.analyse(rf)
+    closes = [c for c in calls_in_func(rf) if last_name(c) == 'close']
+    ok = bool(rcalls) and (guarded_in_init or bool(closes))
+    chk.ob('PAIR-subscription', rf, ok, 'a process loaded from a saved state subscribes to the communicator only while it is live (or is closed again straight away)' + ('' if ok else
+           ': recreate_from runs init() whatever the loaded state is, init() subscribes unconditionally, and nothing ever runs the cleanups of a process that was loaded FINISHED / EXCEPTED / '
+           'KILLED -- it keeps receiving kill / status / pause messages'), node=rcalls[0] if rcalls else None, kind='loaded-terminated-not-subscribed')
     # the broadcast filter lets the three control subjects through
     flt = [c for c in calls_in_func(init, 'BroadcastFilter')]
     ok = False
